@@ -60,9 +60,12 @@ class Session:
         self.ctx = None
         self.exc = exc
         self._calib: Dict[str, Dict[str, int]] = {}
+        self.log_dir: Optional[str] = None        # set to also write the records to disk with the real appender
 
     # ---- configuration ----
     def cfg_for(self, inp: dict) -> dict:
+        if getattr(self, "raw_cfg", False):      # the configuration under test is used as is (plus scratch dirs)
+            return E.deep_merge(self.base_cfg, {"t4": {"snapshot_dir": self.snapdir}})
         over = {
             "t1": {"cache": {"enabled": False}},
             "t2": {"sim_threshold": -1.0, "cache": {"enabled": False}},
@@ -157,7 +160,7 @@ class Session:
         before_entries = len(self.refl_index.entries)
         snap_before = _listing(self.snapdir)
         res_line, raised = None, None
-        with E.LogCapture() as cap, E.patched_time(fake):
+        with E.LogCapture(write_through=bool(self.log_dir), log_dir=self.log_dir) as cap, E.patched_time(fake):
             for p in patches:
                 p.__enter__()
             try:
